@@ -219,6 +219,17 @@ func (m *Model) Update(msg vaxis.Event) {
 	if m.cursor < 0 {
 		m.cursor = 0
 	}
+	m.resegment()
+}
+
+// resegment splits the text into characters again: what was typed or pasted
+// can belong to the character before it (a combining mark, a variation
+// selector, the second half of a flag), and a deletion can bring two such
+// parts together. The cursor stays behind the text it was behind
+func (m *Model) resegment() {
+	before := Model{content: m.content[:m.cursor]}
+	m.content = vaxis.Characters(m.String())
+	m.cursor = len(vaxis.Characters(before.String()))
 }
 
 func (m *Model) Draw(win vaxis.Window) {
